@@ -168,3 +168,22 @@ func VX_C15_write_big() {
 	vx.Check(err != nil, "a write failure near the end of a large output is reported")
 	vx.Reach("end")
 }
+
+// VX_C15_readjson: the reader fails after failAt bytes of a JSON document: ReadJSON must report it.
+// (encoding/json's decoder is represented by the reference decoder of C14, which hands the
+// reader's error on as the real one does.)
+func VX_C15_readjson() {
+	vx.ModelJSONDecoder(c14decode)
+	doc := []byte(`[{"a":1.5,"b":"x"},{"a":2,"b":null}]`)
+	failAt := vxConc(vx.IntN(0, len(doc)), len(doc)+1)
+	var ferr error = vxBoom
+	if vx.Bool() {
+		ferr = vxWrapEOF{}
+	}
+	f := ReadJSON(&vxFailReader{d: doc, failAt: failAt, chunk: vx.ParamInt("chunk"), withData: vx.Bool(), err: ferr})
+	vx.Check(f.Err != nil, "a failing reader is reported through Err")
+	vx.Check(f.Len() == -1, "no rows are exposed after a read failure")
+	g := ReadJSON(&vxFailReader{d: doc, failAt: len(doc), chunk: vx.ParamInt("chunk"), err: io.EOF})
+	vx.Check(g.Err == nil && g.Len() == 2, "the same document from a healthy reader is read")
+	vx.Reach("end")
+}
